@@ -360,7 +360,9 @@ pub fn run_model(cfg: &ScenCfg, out: &mut RunOut) {
         if let Some((rule, frame_idx)) = dev {
             let mut props: Vec<&'static str> = vec!["C01"];
             let cls = frame_idx.and_then(|i| exps.get(i)).map(|(_, ex)| ex.class).unwrap_or("");
-            if cls.contains("unconfigured") || cls == "empty" {
+            // on TCP unit id 0 is an ordinary address: answered iff a handler is configured for it
+            let to_unit0 = frame_idx.and_then(|i| exps.get(i)).map(|(f, _)| f.unit == 0).unwrap_or(false);
+            if cls.contains("unconfigured") || cls == "empty" || to_unit0 {
                 props.push("C17");
             }
             if s.expect_closed {
@@ -398,16 +400,17 @@ pub fn run_model(cfg: &ScenCfg, out: &mut RunOut) {
         // --- handler journal
         let j: Vec<(u8, Call)> = rig.journal.lock().unwrap()[journal_pos..].to_vec();
         journal_pos += j.len();
+        let any_unit0 = exps.iter().any(|(f, _)| f.unit == 0);
         let expected_calls: Vec<crate::model::server::Expected> = exps.into_iter().map(|(_, e)| e).collect();
         if let Err(e) = check_journal(&j, &expected_calls, out) {
             let known = j.iter().any(|(_, c)| matches!(c, Call::WriteCoils(_, n, _) if *n > pdu::MAX_WRITE_COILS) || matches!(c, Call::WriteRegs(_, n, _) if *n > pdu::MAX_WRITE_REGS))
                 && out.known("C02", "handler_called_for_write_multiple_above_limit");
             if !known {
-                out.violate(
-                    "C02",
-                    "handler_journal",
-                    format!("session {} action {}: {} (journal segment: {:?})", si, action, e, &j[..j.len().min(6)]),
-                );
+                let d = format!("session {} action {}: {} (journal segment: {:?})", si, action, e, &j[..j.len().min(6)]);
+                out.violate("C02", "handler_journal", d.clone());
+                if any_unit0 {
+                    out.violate("C17", "handler_journal", d);
+                }
                 break;
             } else {
                 resync_after_known(&mut model, &rig, &mut sessions[si]);
@@ -788,4 +791,139 @@ pub fn run_racy(cfg: &ScenCfg, out: &mut RunOut) {
         let _ = kernel::block_on(fut.as_mut());
     }
     kernel::settle();
+}
+
+/// A session stuck inside one transaction (its peer has stopped reading, so the reply
+/// cannot be written) while the application changes the decode level 1-20 times. The
+/// level changes must not end, skip or reorder that transaction (C20), must not disturb
+/// other sessions, the acceptor or shutdown (C15, C07).
+pub fn run_level_storm(cfg: &ScenCfg, out: &mut RunOut) {
+    setup_kernel_cfg(cfg);
+    let (dec_idx, decode) = pick_decode(&cfg.decode);
+    let mut units = BTreeMap::new();
+    units.insert(1u8, UnitMem::new(0x5707 + choose(50) as u64));
+    let addr: SocketAddr = "10.0.0.1:502".parse().unwrap();
+    let journal: Journal = Arc::new(Mutex::new(Vec::new()));
+    let map = ServerHandlerMap::single(UnitId::new(1), MemHandler { unit: 1, mem: units[&1].clone(), journal: journal.clone() }.wrap());
+    let listener = TcpListener::bind_now(addr).expect("bind");
+    let (handle, task) = create_tcp_server_task(2 + choose(3) as usize, listener, map, AddressFilter::Any, decode);
+    let task = simtokio::task::spawn_named("tcp-server", task.run());
+    kernel::settle();
+    let mut model = RefServer { framing: Framing::Mbap, units: units.clone(), auth: None };
+    let a = net::connect_from(addr, "10.0.3.1:4000".parse().unwrap()).expect("listening");
+    kernel::settle();
+    // the reply does not fit the peer's window: the session blocks writing it
+    let window = 1 + choose(64) as usize;
+    a.set_capacity(window);
+    let count = 60 + choose(66) as u16;
+    let pdu = vec![3, 0, 0, (count >> 8) as u8, count as u8];
+    let want_a = mbap_frame(7, 1, model.serve(1, &pdu).reply.as_ref().unwrap());
+    a.write(&mbap_frame(7, 1, &pdu));
+    // a second request is already waiting behind it
+    let pipelined = chance(1, 2);
+    let pdu2 = vec![4, 0, 5, 0, 2];
+    let want_a2 = mbap_frame(8, 1, model.serve(1, &pdu2).reply.as_ref().unwrap());
+    if pipelined {
+        a.write(&mbap_frame(8, 1, &pdu2));
+    }
+    kernel::settle();
+    let k = [1usize, 7, 8, 9, 10, 17, 20][choose(7) as usize];
+    let levels: Vec<u8> = (0..k).map(|_| choose(36) as u8).collect();
+    // submitted from a task (the application's own), which hands the handle back when it is done
+    let slot: Arc<Mutex<Option<ServerHandle>>> = Arc::new(Mutex::new(None));
+    {
+        let slot = slot.clone();
+        let levels = levels.clone();
+        simtokio::task::spawn_named("level-storm", async move {
+            let mut h = handle;
+            for l in levels {
+                let _ = h.set_decode_level(decode_level(l)).await;
+            }
+            *slot.lock().unwrap() = Some(h);
+        });
+    }
+    kernel::settle();
+    if cfg.faults && chance(1, 2) {
+        kernel::advance(1 + choose(5_000_000) as u64);
+    }
+    out.probe(if k > 8 { "storm_exceeds_session_queue" } else { "storm_within_session_queue" });
+    let desc = format!("a session blocked writing a {}-byte reply into a {}-byte window, {} decode-level changes meanwhile{}", want_a.len(), window, k, if pipelined { ", one more request pipelined" } else { "" });
+    // another peer is served meanwhile
+    let b = net::connect_from(addr, "10.0.3.2:4001".parse().unwrap());
+    kernel::settle();
+    let pdu_b = vec![3, 0, 9, 0, 1];
+    let want_b = mbap_frame(1, 1, model.serve(1, &pdu_b).reply.as_ref().unwrap());
+    match &b {
+        Some(b) => {
+            b.write(&mbap_frame(1, 1, &pdu_b));
+            kernel::settle();
+            let got = b.take_received();
+            if got != want_b {
+                let d = format!("{}: a second session received {} (closed={}), expected {}", desc, hex(&got), b.remote_closed(), hex(&want_b));
+                out.violate("C15", "stalled_session_blocks_others", d.clone());
+                out.violate("C20", "level_change_blocks_server", d);
+                return;
+            }
+        }
+        None => {
+            out.violate("C15", "not_listening", format!("{}: the server no longer accepts connections", desc));
+            return;
+        }
+    }
+    // the stalled peer reads again
+    let mut got_a = Vec::new();
+    for _ in 0..600 {
+        kernel::settle();
+        let part = a.take_received();
+        if part.is_empty() {
+            break;
+        }
+        got_a.extend(part);
+    }
+    let mut want = want_a.clone();
+    if pipelined {
+        want.extend(&want_a2);
+    }
+    if got_a != want || a.remote_closed() {
+        let d = format!("{}: once the peer read again it received {} bytes (closed={}), expected {} (first difference at {})", desc, got_a.len(), a.remote_closed(), want.len(), got_a.iter().zip(want.iter()).position(|(x, y)| x != y).unwrap_or(got_a.len().min(want.len())));
+        out.violate("C20", "level_change_interrupts_transaction", d.clone());
+        out.violate("C15", "session_closed_by_level_change", d);
+        return;
+    }
+    // and the session goes on
+    a.set_capacity(usize::MAX / 2);
+    let pdu3 = vec![1, 0, 0, 0, 9];
+    let want3 = mbap_frame(9, 1, model.serve(1, &pdu3).reply.as_ref().unwrap());
+    a.write(&mbap_frame(9, 1, &pdu3));
+    kernel::settle();
+    let got3 = a.take_received();
+    if got3 != want3 {
+        let d = format!("{}: the next request on that session received {} (closed={}), expected {}", desc, hex(&got3), a.remote_closed(), hex(&want3));
+        out.violate("C20", "level_change_interrupts_transaction", d.clone());
+        out.violate("C15", "session_closed_by_level_change", d);
+        return;
+    }
+    out.ops_checked = 3 + pipelined as u64;
+    out.nontrivial = Some((dec_idx as u64) | (k as u64) << 8 | (window as u64) << 16 | (count as u64) << 24 | (pipelined as u64) << 40);
+    out.sample = Some(json!({"scenario": "decode-level storm against a stalled session", "changes": k, "window": window, "reply_len": want_a.len(), "pipelined": pipelined}));
+    out.observable.extend_from_slice(&got_a);
+    let handle = match slot.lock().unwrap().take() {
+        Some(h) => h,
+        None => {
+            let d = format!("{}: set_decode_level had still not returned after the stalled peer was served", desc);
+            out.violate("C20", "level_change_blocks_server", d.clone());
+            out.violate("C15", "stalled_session_blocks_others", d);
+            return;
+        }
+    };
+    {
+        let mut fut = Box::pin(handle.shutdown());
+        let _ = kernel::block_on(fut.as_mut());
+    }
+    kernel::settle();
+    if !task.is_finished() {
+        let d = format!("{}: the server task did not end after shutdown", desc);
+        out.violate("C15", "server_task_survives_shutdown", d.clone());
+        out.violate("C07", "shutdown_not_honoured", d);
+    }
 }
